@@ -518,6 +518,14 @@ void Walker::judgeProcessing(Inst& in, const char* what, const Cfg& before, cons
 	if (any && m.cfg.on) m.commit(0);
 	bool overlap = false;
 	for (size_t i = 0; i < footprints.size() && !overlap; ++i) for (size_t j = i + 1; j < footprints.size(); ++j) if (Model::onPath(footprints[i], footprints[j]) || Model::onPath(footprints[j], footprints[i])) { overlap = true; break; }
+	// F35: every request is forwarded from the apex through everything requested so far, and an orthogonal region that was requested as a whole
+	// (it, or a region around it, was the destination of an earlier request of the step) is then resolved again - with the kind of the later
+	// request and fresh generator outputs. Such steps get the postcondition like overlapping ones.
+	{ int lastIdx = -1; for (size_t i = 0; i < applied.size(); ++i) if (applied[i].type != T_SCHEDULE) lastIdx = (int) i;
+	  bool reresolved = false;
+	  for (int i = 0; i < lastIdx && !reresolved; ++i) { if (applied[i].type == T_SCHEDULE) continue; const int d = applied[i].dest;
+		for (int s2 = d; s2 < d + node(d).size && s2 < HV_NS; ++s2) if (node(s2).kind == ORTHO) { reresolved = true; break; } }
+	  if (reresolved && S.known("F35")) { st.cls("steps_with_reresolved_orthogonal_territory_F35"); overlap = true; } }
 	if (transitionReqs >= 2) { ++S.batches; st.cls("steps_with_batch"); if (overlap) st.cls("steps_with_overlapping_requests"); }
 	if (m.resolvedByKind) { ++S.kindResolved; st.cls("steps_resolved_by_kind"); }
 	if (m.usedRandom) st.cls("steps_with_random_draw");
@@ -548,7 +556,13 @@ void Walker::judgeProcessing(Inst& in, const char* what, const Cfg& before, cons
 				st.cls("overlap_disagreement_with_sequential_model");
 				// postcondition only: the destination of the last transition request and all its ancestors are active
 				int lastDest = -1; for (auto& r : applied) if (r.type != T_SCHEDULE) lastDest = r.dest;
-				if (lastDest >= 0 && any) for (int c = lastDest; c >= 0; c = node(c).parent) if (!in.fsm->isActive((StateID) c)) { std::snprintf(buf, sizeof buf, "after an approved batch the destination %d of the last request is not active (state %d inactive) (%s, step %u)", lastDest, c, what, S.stepNo); S.violation("C02", buf); break; }
+				// F34: an earlier request of the step that targets an ancestor region (or another branch of one) two or more composite levels above
+				// the last destination makes the regions in between be resolved again by their strategy, which can deactivate the last destination
+				bool f34 = false;
+				if (lastDest >= 0) { int chain[3], n = 0; for (int c2 = node(lastDest).parent; c2 >= 0 && n < 3; c2 = node(c2).parent) if (node(c2).kind == COMPO) chain[n++] = c2;
+					if (n == 3) { int lastIdx = -1; for (size_t i = 0; i < applied.size(); ++i) if (applied[i].type != T_SCHEDULE) lastIdx = (int) i;
+						for (int i = 0; i < lastIdx; ++i) { if (applied[i].type == T_SCHEDULE) continue; bool inside = false; for (int c2 = applied[i].dest; c2 >= 0; c2 = node(c2).parent) if (c2 == chain[1]) inside = true; if (!inside) f34 = true; } } }
+				if (lastDest >= 0 && any) for (int c = lastDest; c >= 0; c = node(c).parent) if (!in.fsm->isActive((StateID) c)) { if (f34 && S.known("F34")) { st.cls("postcondition_failures_tolerated_F34"); break; } std::snprintf(buf, sizeof buf, "after an approved batch the destination %d of the last request is not active (state %d inactive) (%s, step %u)", lastDest, c, what, S.stepNo); S.violation("C02", buf); break; }
 			} else {
 				std::ostringstream o; o << "configuration differs from the prescribed one after " << what << " (step " << S.stepNo << "): requests";
 				for (auto& r : applied) o << " " << TTN[r.type] << "->" << r.dest;
@@ -801,7 +815,7 @@ void Walker::judgeHistory(Inst& in, const char* what, const std::vector<Round>& 
 	// lastTransitionTo: null or an entry of the array
 	for (int s = 0; s < HV_NS; ++s) {
 		const auto* lt = f.lastTransitionTo((StateID) s);
-		if (lt && !(prev.count() && lt >= &prev[0] && lt <= &prev[prev.count() - 1])) { std::snprintf(buf, sizeof buf, "lastTransitionTo(%d) points outside previousTransitions() (%s, step %u)", s, what, S.stepNo); S.violation("C09", buf); }
+		if (lt && !(prev.count() && lt >= &prev[0] && lt <= &prev[prev.count() - 1])) { std::snprintf(buf, sizeof buf, "lastTransitionTo(%d) points outside previousTransitions() (%s, step %u)", s, what, S.stepNo); S.violation("C09", buf); S.violation("C11", buf); }
 	}
 	const bool single = approved == 1 && expect.size() == 1 && expect[0].type != T_SCHEDULE && same;
 	if (single) {
@@ -938,9 +952,19 @@ void Walker::judgePlans(Inst& in, const std::vector<std::vector<PTask>>& before,
 	// ---- liveness under the statement's premises, literally: exactly one reporter s in the step, s is a sub-state (not the head) of a
 	// plan-owning region r with no other plan-owning region between them, nothing else reported, no transition requested in the phases
 	bool carried = false; for (int s = 0; s < HV_NS; ++s) if (wasActive[s] && (in.markS0[s] || in.markF0[s])) carried = true;
-	if (reporters == 1 && !anyRequest && !anyPlanEdit && !carried && in.loggerOn && wasActive[lastReporter]) {
+	// A second reporter does not touch the premises when it is a region head strictly above the plan-owning region and reported (itself) only from
+	// postUpdate: sub-states are visited before their head there, so nothing below can inherit the report, and nested plans are serviced first.
+	int benignAbove = -1;
+	if (reporters == 2) {
+		int two[2] = {-1, -1}; int n2 = 0; for (int s = 0; s < HV_NS && n2 < 2; ++s) if (stepSucc[s] || stepFail[s]) two[n2++] = s;
+		auto onlyFromPostUpdate = [&](int X) { bool any = false; for (int i = 0; i < firstRound; ++i) if ((x.tr[i].kind == E_ACT_SUCCEED || x.tr[i].kind == E_ACT_FAIL) && x.tr[i].a == X) { if (x.tr[i].state != X) return false; Method pm = Method::NONE; for (int k = i - 1; k >= 0; --k) if (x.tr[k].kind == E_CB) { pm = (Method) x.tr[k].method; break; } if (pm != Method::POST_UPDATE) return false; any = true; } return any; };
+		auto above = [&](int X, int s) { for (int c = node(s).parent; c >= 0; c = node(c).parent) if (c == X) return true; return false; };
+		for (int k = 0; k < 2 && n2 == 2 && benignAbove < 0; ++k) { const int X = two[k], s0 = two[1 - k]; if (X > 0 && isRegion(X) && above(X, s0) && onlyFromPostUpdate(X)) { benignAbove = X; lastReporter = s0; } }
+	}
+	if ((reporters == 1 || benignAbove >= 0) && !anyRequest && !anyPlanEdit && !carried && in.loggerOn && wasActive[lastReporter]) {
 		const int s0 = lastReporter; int r = -1;
 		for (int c = node(s0).parent; c >= 0; c = node(c).parent) if (in.planExists0[node(c).region] || workPlanExists[node(c).region]) { r = c; break; } // plans that exist while the phases run (appends from guards / enter come later)
+		if (benignAbove >= 0) { bool strictlyBelow = false; for (int c = r >= 0 ? node(r).parent : -1; c >= 0; c = node(c).parent) if (c == benignAbove) strictlyBelow = true; if (!strictlyBelow) r = -1; else st.cls("plan_liveness_steps_with_reporting_ancestor"); }
 		// F13: the per-step status is one accumulator: a report made in a phase that visits sub-states before their head (postUpdate; preReact/react
 		// with bottom-up reactions; postReact with top-down reactions) is inherited by the head, which then counts as having reported itself
 		bool headAfterSubs = false;
